@@ -463,6 +463,9 @@ for _p, _g in CODE_TIE.items():
 ON_CODE = {'C05': ['Client'], 'C06': ['Client'], 'C14': ['Client'], 'C07': ['Extract', 'Updater'], 'C10': ['Extract'],
            'C08': ['Dispatch'], 'C09': ['Dispatch'], 'C19': ['Drift', 'Updater'],
            'C01': ['Client', 'Extract', 'Updater', 'Dispatch', 'Drift']}
+# [errors] the two client APIs: C14 at the API level, C17 (same answer, enums as published), C16/C17 open through both APIs
+for _p, _g in {'C14': ['Errors'], 'C16': ['Open'], 'C17': ['Errors', 'Open']}.items():
+    ON_CODE[_p] = ON_CODE.get(_p, []) + _g
 for _p, _g in ON_CODE.items():
     if _p in PROPS:
         PROPS[_p]['code_tie'] = PROPS[_p].get('code_tie', []) + [f'ClockBound.Properties.OnCode{_x}' for _x in _g]
